@@ -488,8 +488,11 @@ func c07Scenarios(r *verifRng, n int) [][]string {
 		{"M0:n1/a+n2/a", "P1:n1/a", "R2", "r2.1:n1/a", "r2.2:n1/a", "r2.3:n2/a"},
 		{"R0", "r0.1:n1/a", "r0.2:n1/", "M1:n1/b"},
 	}
-	for _, s := range setups {
-		for _, fl := range []string{"-", "d"} {
+	for si, s := range setups {
+		for _, fl := range []string{"d", "-"} {
+			if fl == "-" && si%2 == 1 && !verifThorough() {
+				continue
+			}
 			ops := append([]string{}, s...)
 			tok := 0
 			for _, d := range dests {
@@ -592,15 +595,33 @@ func TestVerifC07(t *testing.T) {
 	}
 
 	r := &verifRng{s: verifSeed()*0x9e37 + 7}
-	total := 24
+	total := 16
 	if verifThorough() {
 		total = 200
 	}
-	for i, ops := range c07Scenarios(r, total) {
-		peers := []string{"p1", "p2"}
-		if i%3 == 1 {
-			peers = []string{"p1"}
-		}
-		run("n1", peers, ops)
+	// independent Cores: run them on a few workers (the store's disk syncs dominate), keep the order
+	scen := c07Scenarios(r, total)
+	lines := make([]string, len(scen))
+	var wg sync.WaitGroup
+	sem := make(chan struct{}, 8)
+	t0 := time.Now()
+	for i, ops := range scen {
+		wg.Add(1)
+		sem <- struct{}{}
+		go func(i int, ops []string) {
+			defer func() { <-sem; wg.Done() }()
+			peers := []string{"p1", "p2"}
+			if i%3 == 1 {
+				peers = []string{"p1"}
+			}
+			dir := fmt.Sprintf("%s/c07core%d", scratch, i)
+			lines[i] = c07Run(t, dir, "n1", peers, ops)
+			_ = os.RemoveAll(dir)
+		}(i, ops)
 	}
+	wg.Wait()
+	for _, l := range lines {
+		fmt.Fprintln(f, l)
+	}
+	fmt.Fprintf(f, "# timing core %d scenarios %.1fs\n", len(scen), time.Since(t0).Seconds())
 }
